@@ -178,7 +178,9 @@ for _fs in FEATURE_SETS:
 
 
 EDITS = ['set_thickness', 'set_radius', 'set_conic', 'set_index', 'set_asphere_coeff', 'scale_system', 'image_solve', 'solve',
-         'pickup_thickness', 'variable_thickness', 'variable_tilt']
+         'pickup_thickness', 'variable_thickness', 'variable_tilt',
+         # constraints that do not hold (any more) when the lens is saved: the saved prescription is what was set last
+         'pickup_then_override', 'pickup_then_scale', 'solve_then_override', 'solve_then_scale']
 
 
 def _after_edit_contract(edit):
@@ -206,6 +208,18 @@ def _after_edit_contract(edit):
             lens.solves.add('marginal_ray_height', 4, 0.0)
         elif edit == 'pickup_thickness':
             lens.pickups.add(1, 'thickness', 3, 1.0, 0.5)
+        elif edit == 'pickup_then_override':
+            lens.pickups.add(1, 'thickness', 3, 1.0, 0.5)
+            lens.set_thickness(v * 3, 3)
+        elif edit == 'pickup_then_scale':
+            lens.pickups.add(1, 'radius', 3, -1.0, 5.0)
+            lens.scale_system(v)
+        elif edit == 'solve_then_override':
+            lens.solves.add('marginal_ray_height', 4, 0.0)
+            lens.set_thickness(c.val(lens.surface_group.get_thickness(3)) + v / 4, 3)
+        elif edit == 'solve_then_scale':
+            lens.solves.add('marginal_ray_height', 4, 0.3)
+            lens.scale_system(v)
         elif edit == 'variable_thickness':
             c.mod('optiland.optimization.variable.variable').Variable(lens, 'thickness', surface_number=2).update(v / 10)
         elif edit == 'variable_tilt':
